@@ -197,5 +197,44 @@ Proof.
     destruct (existsb (missing_end w0) ends); reflexivity ] ].
 Qed.
 
+
+(* ---------------------------------------------------------------- the declaring calls *)
+(* what [wstep] does for a call that only declares (Add<Component>Node, AddBranch, AddEnd, AddInput* on the handle of
+   a node or of END, SetStaticValue) is the translated method; End() — the handle of END — is [W.front_End]: the
+   registered node, created on first use *)
+Theorem gen_wf_front_agrees : W.tie_available = true ->
+  (forall v w k nk ns, wstep v w (WAddNode k nk ns) = (W.front_AddNode w k nk ns, OOk))
+  /\ (forall v w from ends, wstep v w (WAddBranch from ends) = (W.front_AddBranch w from ends, OOk))
+  /\ (forall v w from fs, wstep v w (WAddEnd from fs) = (W.front_AddEnd w from fs, OOk))
+  /\ (forall v w from kind fs opts, kind_of_options opts = kind ->
+        wstep v w (WAddInput END_ from kind fs) = (W.front_addDependencyRelation END_ (W.front_End w) from fs opts, OOk))
+  /\ (forall v w to from kind fs opts, kind_of_options opts = kind -> String.eqb to END_ = false ->
+        wstep v w (WAddInput to from kind fs) = (W.front_addDependencyRelation to w from fs opts, OOk))
+  /\ (forall v w f, wstep v w (WSetStatic END_ f) = (W.front_SetStaticValue END_ (W.front_End w) f, OOk))
+  /\ (forall v w k f, String.eqb k END_ = false -> wstep v w (WSetStatic k f) = (W.front_SetStaticValue k w f, OOk)).
+Proof.
+  intros TA; first [wvacuous TA | clear TA;
+  split; [|split; [|split; [|split; [|split; [|split]]]]];
+  [ intros v w k nk ns; simpl; unfold W.front_AddNode, w_graph_addNode, W.initNode, wn_put;
+    destruct (g_add_node (w_g w) k nk ns false false) as [g' o]; reflexivity
+  | intros v w from ends; reflexivity
+  | intros v w from fs; simpl; unfold w_add_input, W.front_AddEnd, W.front_End, W.front_addDependencyRelation, inputs_append,
+      wn_update, wn_has, wn_get, W.initNode, wn_put, kind_of_options, W.options_AddInput; simpl;
+    destruct (alist_get END_ (w_nodes w)) as [n|] eqn:G; simpl;
+    [ rewrite G; reflexivity | rewrite aget_set_same; simpl; reflexivity ]
+  | intros v w from kind fs opts HK; simpl; unfold w_add_input, W.front_End, W.front_addDependencyRelation, inputs_append,
+      wn_update, wn_has, wn_get, W.initNode, wn_put; rewrite HK; simpl;
+    destruct (alist_get END_ (w_nodes w)) as [n|] eqn:G; simpl;
+    [ rewrite G; reflexivity | rewrite aget_set_same; simpl; reflexivity ]
+  | intros v w to from kind fs opts HK HE; simpl; unfold w_add_input, W.front_addDependencyRelation, inputs_append, wn_update, wn_get, wn_put;
+    rewrite HK, HE; simpl; destruct (alist_get to (w_nodes w)); reflexivity
+  | intros v w f; simpl; unfold W.front_SetStaticValue, statics_put, W.front_End, wn_update, wn_has, wn_get, W.initNode, wn_put; simpl;
+    destruct (alist_get END_ (w_nodes w)) as [n|] eqn:G; simpl;
+    [ rewrite G; reflexivity | rewrite aget_set_same; simpl; reflexivity ]
+  | intros v w k f HE; simpl; unfold W.front_SetStaticValue, statics_put, wn_update, wn_get, wn_put; rewrite HE; simpl;
+    destruct (alist_get k (w_nodes w)); reflexivity ] ].
+Qed.
+
 Print Assumptions gen_wf_closure_agrees.
+Print Assumptions gen_wf_front_agrees.
 Print Assumptions gen_wf_compile_agrees.
